@@ -7,7 +7,8 @@ behind them) read as a value, `open(<path of x>)`, `<path of x>.read_text()/read
 Provenance.  Every value that is (or contains, or is a path of) a definition carries a set of provenance tags; all other
 values carry none.  Tags are introduced by the *declared* effect contract of the function under analysis (parameters,
 `self`, declared fields of `self`), by declared results of callees, and by `filter` in functions that declare
-`filter_selects`.  Tags are propagated flow-insensitively (a variable carries the union of everything ever assigned to it,
+`filter_selects` (a *selection by a predicate that constrains both the full name and the version of the element*, in any of
+its spellings: filter + lambda, comprehension / generator with `if`, `if` inside a loop).  Tags are propagated flow-insensitively (a variable carries the union of everything ever assigned to it,
 containers the union of everything ever stored in them) through attribute reads, subscripts, iteration, comprehensions,
 container methods and the transparent builtins (list, sorted, filter, map, ...).
 
@@ -94,6 +95,17 @@ class EffectContract:
 DEFAULT = EffectContract()
 
 
+class InferredContract(EffectContract):
+    """Stands for a function / method of an analysed module that has no declared effect contract (e.g. a helper extracted by
+    a refactoring): at a call site its effect summary is *inferred from its body* (the same analysis, run with the
+    provenance of the actual arguments; memoised; recursion cut with the conservative summary "evaluates and returns all
+    its arguments") and listed in the evidence as `inferred, not declared`."""
+
+    def __init__(self, qualname):
+        super().__init__()
+        self.inferred_for = qualname
+
+
 class Site:
     def __init__(self, kind, tags, what, line):
         self.kind, self.tags, self.what, self.line = kind, frozenset(tags), what, line
@@ -121,17 +133,19 @@ class FunctionAnalysis:
         self.returns: Set[str] = set()
         self.final = False
         self.changed = False
+        self.refined: List[Dict[str, Set[str]]] = []  # scoped refinements of a variable's provenance (selection predicates)
         self.nested: Dict[str, ast.FunctionDef] = {}
         self.nested_ret: Dict[str, Set[str]] = {}
         self.exc_names: Set[str] = set()
 
     # ---------------------------------------------------------------- driver
-    def run(self):
+    def run(self, judge=True):
         a = self.node.args
         names = [x.arg for x in a.posonlyargs + a.args + a.kwonlyargs]
         for n in names:
             t = self.contract.params.get(n)
             self.env[n] = {t} if t else set()
+            self.env[n] |= set(getattr(self, "init_tags", {}).get(n, set()))
         if self.cls_name and names and not self._is_static():
             st = self.contract.self_tag or self.ck.class_self_tag.get(self.cls_name)
             self.env[names[0]] = {st} if st else set()
@@ -150,7 +164,8 @@ class FunctionAnalysis:
         for k in self.violations:
             self.violations[k] = []
         self._walk_body(self.node.body)
-        self._judge()
+        if judge:
+            self._judge()
 
     def _is_static(self):
         return any(isinstance(d, ast.Name) and d.id == "staticmethod" for d in getattr(self.node, "decorator_list", []))
@@ -239,7 +254,17 @@ class FunctionAnalysis:
             self._walk_body(st.orelse)
         elif isinstance(st, ast.If):
             self._expr(st.test)
+            sel = self.contract.filter_selects
+            scope = {}
+            if sel:
+                for n in ast.walk(st.test):
+                    if isinstance(n, ast.Name) and n.id not in scope and self._e_Name(n) and self._selects([st.test], n.id):
+                        scope[n.id] = {sel}  # under this test the variable holds a definition selected by name and version
+            if scope:
+                self.refined.append(scope)
             self._walk_body(st.body)
+            if scope:
+                self.refined.pop()
             self._walk_body(st.orelse)
         elif isinstance(st, (ast.With, ast.AsyncWith)):
             for item in st.items:
@@ -371,7 +396,58 @@ class FunctionAnalysis:
         return set()
 
     def _e_Name(self, e):
+        for scope in reversed(self.refined):
+            if e.id in scope:
+                return set(scope[e.id])
         return self.env.get(e.id, set())
+
+    # ---------------------------------------------------------------- selection by a name-and-version predicate
+    def _selects(self, tests, var: str) -> bool:
+        """Does the conjunction of `tests` constrain BOTH the full name and the version of the definition held by `var`?
+        Conjuncts are the operands of top-level `and`s; the full name must occur (directly or through str methods such as
+        .lower()) on one side of an `==`, and `var.version` (or both its .major and .minor) on one side of an `==`.
+        Disjunctions, negations and comparisons other than `==` do not count."""
+        conj = []
+
+        def flatten(t):
+            if isinstance(t, ast.BoolOp) and isinstance(t.op, ast.And):
+                for v in t.values:
+                    flatten(v)
+            else:
+                conj.append(t)
+
+        for t in tests:
+            flatten(t)
+
+        def mentions(e, attr_path):
+            """e is var.<attr_path>, possibly followed by str method calls / further attributes of the value"""
+            while True:
+                if isinstance(e, ast.Call) and isinstance(e.func, ast.Attribute) and not e.args and not e.keywords:
+                    e = e.func.value          # x.lower()
+                    continue
+                break
+            chain = []
+            while isinstance(e, ast.Attribute):
+                chain.append(e.attr)
+                e = e.value
+            chain.reverse()
+            return isinstance(e, ast.Name) and e.id == var and chain[:len(attr_path)] == attr_path and len(chain) == len(attr_path)
+
+        name_ok = False
+        ver, major, minor = False, False, False
+        for c in conj:
+            if not (isinstance(c, ast.Compare) and len(c.ops) == 1 and isinstance(c.ops[0], ast.Eq)):
+                continue
+            sides = [c.left, c.comparators[0]]
+            if any(mentions(x, ["full_name"]) for x in sides):
+                name_ok = True
+            if any(mentions(x, ["version"]) for x in sides):
+                ver = True
+            if any(mentions(x, ["version", "major"]) for x in sides):
+                major = True
+            if any(mentions(x, ["version", "minor"]) for x in sides):
+                minor = True
+        return name_ok and (ver or (major and minor))
 
     def _e_Compare(self, e):
         self._expr(e.left)
@@ -429,13 +505,26 @@ class FunctionAnalysis:
         return self._expr(e.value)
 
     def _comp(self, e, elts):
+        pushed = 0
         for g in e.generators:
-            self._store(g.target, self._expr(g.iter))
-            for c in g.ifs:
-                self._expr(c)
+            src = self._expr(g.iter)
+            self._store(g.target, src)
+            sel = self.contract.filter_selects
+            if sel and src and isinstance(g.target, ast.Name) and g.ifs and self._selects(g.ifs, g.target.id):
+                # elements selected by a name-and-version predicate: inside the comprehension (condition excluded) the
+                # element has the selected provenance
+                for c in g.ifs:
+                    self._expr(c)
+                self.refined.append({g.target.id: {sel}})
+                pushed += 1
+            else:
+                for c in g.ifs:
+                    self._expr(c)
         out: Set[str] = set()
         for x in elts:
             out |= self._expr(x)
+        for _ in range(pushed):
+            self.refined.pop()
         return out
 
     def _e_ListComp(self, e):
@@ -547,9 +636,11 @@ class FunctionAnalysis:
             return recv | lam | (allargs if f.attr in ("get", "pop", "setdefault", "joinpath", "relative_to") else set())
         # ---- plain names
         if isinstance(f, ast.Name):
-            if f.id == "filter" and self.contract.filter_selects:
-                self._lambdas(call, allargs)
-                return {self.contract.filter_selects} if allargs else set()
+            if f.id == "filter" and self.contract.filter_selects and call.args and isinstance(call.args[0], ast.Lambda) \
+                    and len(call.args[0].args.args) == 1 and allargs \
+                    and self._selects([call.args[0].body], call.args[0].args.args[0].arg):
+                self._lambdas(call, allargs)  # the predicate itself sees the unrefined elements
+                return {self.contract.filter_selects}
             if f.id in TRANSPARENT:
                 return allargs | self._lambdas(call, allargs)
             if f.id in OPAQUE_RESULT:
@@ -583,6 +674,38 @@ class FunctionAnalysis:
         d = _dotted(node)
         return d is not None and d.split(".")[0] in self.ck.module_aliases and d.split(".")[0] not in self.env
 
+    def _apply_inferred(self, contract: "InferredContract", call: ast.Call, bound, order) -> Set[str]:
+        """A callee of an analysed module without declared contract: its inferred summary for these arguments."""
+        q = contract.inferred_for
+        r = self.ck.summary(q, bound)
+        if self.final:
+            for site in r["evals"]:
+                self.evals.append(Site("EVAL", site.tags, "inferred callee %s: %s" % (q.replace("pydsdl.", ""), site.what),
+                                       call.lineno))
+            self.internal |= r["internal"]
+            for kind, msgs in r["violations"].items():
+                for m in msgs:
+                    self._viol(kind, "line %d: via inferred callee %s: %s" % (call.lineno, q.replace("pydsdl.", ""), m))
+            self.calls.append((q, call, bound))
+        # containers handed to the callee: what it stores into them flows back to the actual argument
+        names_by_pos = {}
+        k = 0
+        for a in call.args:
+            if not isinstance(a, (ast.Lambda, ast.Starred)):
+                if k < len(order):
+                    names_by_pos[order[k]] = a
+                k += 1
+        for kwd in call.keywords:
+            if kwd.arg:
+                names_by_pos[kwd.arg] = kwd.value
+        for n, tags in r["params"].items():
+            extra = tags - bound.get(n, set())
+            a = names_by_pos.get(n)
+            root = _root_name(a) if a is not None else None
+            if extra and root is not None:
+                self._set(root, extra)
+        return set(r["returns"])
+
     def _apply(self, contract: EffectContract, qual: str, call: ast.Call, pos, kw, skip_self=False) -> Set[str]:
         """Effect of a call through the callee's declared contract."""
         names = list(contract.params.keys())
@@ -600,6 +723,8 @@ class FunctionAnalysis:
         for k, t in kw.items():
             bound.setdefault(k, set()).update(t)
         lam = self._lambdas(call, set().union(*bound.values()) if bound else set())
+        if isinstance(contract, InferredContract):
+            return self._apply_inferred(contract, call, bound, order)
         for n, t in bound.items():
             decl = contract.params.get(n)
             if not t:
@@ -661,6 +786,9 @@ class EffectChecker:
         self.callable_params = callable_params or {}
         self.functions: Dict[str, Tuple[ast.AST, Optional[str], str]] = {}
         self.module_aliases: Set[str] = set()
+        self._inferred: Dict[str, InferredContract] = {}
+        self._summaries: Dict[Any, Any] = {}
+        self.inferred_used: Dict[str, List[Any]] = {}
         self.method_contracts: Dict[str, List[EffectContract]] = {}
         self.method_names: Set[str] = set()
         self.param_order: Dict[str, List[str]] = {}
@@ -689,7 +817,37 @@ class EffectChecker:
             if cls is not None:
                 self.method_names.add(node.name)
                 if q not in self.contracts:
-                    self.method_contracts.setdefault(node.name, []).append(DEFAULT)
+                    self.method_contracts.setdefault(node.name, []).append(self.inferred(q))
+
+    def inferred(self, q) -> "InferredContract":
+        if q not in self._inferred:
+            self._inferred[q] = InferredContract(q)
+        return self._inferred[q]
+
+    def summary(self, q, bound: Dict[str, Set[str]]):
+        """Effect summary of an undeclared function for the given provenance of its arguments."""
+        key = (q, tuple(sorted((n, tuple(sorted(t))) for n, t in bound.items() if t)))
+        if key in self._summaries:
+            r = self._summaries[key]
+            if r is None:  # recursion: conservative summary
+                allt = set().union(*bound.values()) if bound else set()
+                return {"evals": [Site("EVAL", allt, "recursive call (conservative)", 0)] if allt else [], "internal": set(),
+                        "returns": allt, "violations": {}, "params": {}}
+            return r
+        self._summaries[key] = None
+        node, cls, mod = self.functions[q]
+        fa = FunctionAnalysis(self, q, node, cls)
+        fa.contract = EffectContract()
+        fa.init_tags = {n: set(t) for n, t in bound.items()}
+        fa.run(judge=False)
+        r = {"evals": list(fa.evals), "internal": set(fa.internal), "returns": set(fa.returns),
+             "violations": {k: list(v) for k, v in fa.violations.items() if v and k in ("callee-args", "known-callees", "stores")},
+             "params": {n: set(fa.env.get(n, set())) for n in bound}}
+        self._summaries[key] = r
+        self.inferred_used.setdefault(q, []).append({"arguments": {n: sorted(t) for n, t in bound.items() if t},
+                                                      "evals": [repr(x) for x in fa.evals], "internal": sorted(fa.internal),
+                                                      "returns": sorted(fa.returns)})
+        return r
 
     def _add(self, qual, node, cls, mod):
         self.functions[qual] = (node, cls, mod)
@@ -722,20 +880,20 @@ class EffectChecker:
         if cls_name:
             for q in self.functions:
                 if q.endswith(".%s.__init__" % cls_name):
-                    return q, self.contracts.get(q, DEFAULT), True
+                    return q, self.contracts.get(q) or self.inferred(q), True
             return None
         # functions: local module first, then imported aliases
         r = self.repo.resolve_static(mi, f) if isinstance(f, (ast.Name, ast.Attribute)) else None
         qn = getattr(r, "qualname", None)
         if qn in self.functions and self.functions[qn][1] is None:
-            return qn, self.contracts.get(qn, DEFAULT), False
+            return qn, self.contracts.get(qn) or self.inferred(qn), False
         if isinstance(f, ast.Attribute) and qn in self.functions:
             # Class.method referenced through the class (classmethod / staticmethod call)
-            return qn, self.contracts.get(qn, DEFAULT), self.param_order[qn][:1] in (["cls"], ["self"])
+            return qn, self.contracts.get(qn) or self.inferred(qn), self.param_order[qn][:1] in (["cls"], ["self"])
         if isinstance(f, ast.Attribute) and isinstance(f.value, ast.Name) and f.value.id == "cls" and fa.cls_name:
             for q in self.functions:
                 if q.endswith(".%s.%s" % (fa.cls_name, f.attr)):
-                    return q, self.contracts.get(q, DEFAULT), True
+                    return q, self.contracts.get(q) or self.inferred(q), True
         return None
 
     def run(self):
@@ -757,9 +915,16 @@ def check(repo, modules, contracts, class_fields, class_self_tag, callable_param
         per_fn[sq] = {"eval_sites": [repr(s) for s in fa.evals], "internal": sorted(fa.internal),
                       "declared": {"evals": sorted(fa.contract.evals), "internal": sorted(fa.contract.internal),
                                    "params": fa.contract.params, "returns": fa.contract.returns}}
+        via_callers = q not in contracts and q in ck.inferred_used
         for kind, msgs in fa.violations.items():
             name = "%s/effect#%s" % (sq, kind)
-            obligations.append({"name": name, "ok": not msgs, "detail": "; ".join(msgs), "function": q})
+            if via_callers:
+                # no declared contract and called from analysed code: judged at its call sites through its inferred
+                # summary (what it does with the provenance its callers actually hand it), not against the empty contract
+                obligations.append({"name": name, "ok": True, "function": q,
+                                    "detail": "inferred, not declared: judged at the call sites"})
+            else:
+                obligations.append({"name": name, "ok": not msgs, "detail": "; ".join(msgs), "function": q})
         if fa.contract.custom:
             for label, ok, detail in fa.contract.custom(fa):
                 obligations.append({"name": "%s/effect#%s" % (sq, label), "ok": bool(ok), "detail": detail, "function": q})
@@ -767,7 +932,8 @@ def check(repo, modules, contracts, class_fields, class_self_tag, callable_param
         if not o["ok"]:
             violations.append({"name": o["name"], "detail": o["detail"], "concrete": None})
     return {"check": "effects", "obligations": obligations, "violations": violations,
-            "functions_analysed": len(res), "per_function": per_fn}
+            "functions_analysed": len(res), "per_function": per_fn,
+            "inferred_not_declared": {q.replace("pydsdl.", ""): v for q, v in sorted(ck.inferred_used.items())}}
 
 
 # =====================================================================================================================
@@ -1075,22 +1241,41 @@ class ExpandChecker:
         return out
 
 
-def check_expand(repo, modules, expanders: Dict[str, str], must_be_free: List[str]) -> Dict[str, Any]:
-    ck = ExpandChecker(repo, modules, expanders)
+def check_expand(repo, modules, expanders: Dict[str, str], must_be_free: List[str], baseline_free=()) -> Dict[str, Any]:
+    """`baseline_free`: functions whose EXPAND-freedom is part of the baseline (ledger).  A *private* function that is neither
+    declared an expander, nor listed in `must_be_free`, nor in the baseline - i.e. a helper introduced by a refactoring - may be
+    an **inferred expander**: its own obligation is named `expand-inferred` and holds, its short name joins the expander names,
+    and every caller is judged with that (callee effect from the inferred summary): a declared-free caller then fails."""
+    expanders = dict(expanders)
     for q in list(expanders) + list(must_be_free):
-        if q not in ck.functions:
+        if q not in ExpandChecker(repo, modules, expanders).functions:
             raise KeyError("EXPAND contract for unknown function %s" % q)
-    res = ck.run()
+    inferred: Dict[str, str] = {}
+    protected = set(must_be_free) | set(baseline_free)
+    for _ in range(6):
+        ck = ExpandChecker(repo, modules, dict(expanders, **inferred))
+        res = ck.run()
+        new = {}
+        for q, sites in res.items():
+            name = q.split(".")[-1]
+            private = name.startswith("_") and not (name.startswith("__") and name.endswith("__"))
+            if sites and q not in expanders and q not in inferred and q not in protected and private:
+                new[q] = "inferred from its body: " + "; ".join(sites)[:300]
+        if not new:
+            break
+        inferred.update(new)
     obligations, per_fn = [], {}
     for q, sites in res.items():
         sq = q.replace("pydsdl.", "")
         declared = q in expanders
         if sites:
-            per_fn[sq] = {"declared_expander": declared, "sites": sites}
-        ok = declared or not sites
-        obligations.append({"name": "%s/effect#expand-%s" % (sq, "declared" if declared else "free"), "ok": ok,
+            per_fn[sq] = {"declared_expander": declared, "inferred_expander": q in inferred, "sites": sites}
+        ok = declared or q in inferred or not sites
+        kind = "declared" if declared else ("inferred" if q in inferred else "free")
+        obligations.append({"name": "%s/effect#expand-%s" % (sq, kind), "ok": ok,
                             "detail": "" if ok else "EXPAND sites in a function declared EXPAND-free: " + "; ".join(sites),
                             "function": q})
     return {"check": "effects-expand", "obligations": obligations, "violations": [], "functions_analysed": len(res),
-            "expand_sites": per_fn, "types": {"attributes": {k: sorted(v) for k, v in ck.attr_type.items() if v},
-                                              "results": {k: sorted(v) for k, v in ck.ret_type.items() if v}}}
+            "expand_sites": per_fn, "inferred_not_declared": {q.replace("pydsdl.", ""): w for q, w in sorted(inferred.items())},
+            "types": {"attributes": {k: sorted(v) for k, v in ck.attr_type.items() if v},
+                      "results": {k: sorted(v) for k, v in ck.ret_type.items() if v}}}
